@@ -775,7 +775,7 @@ def find_witness(pid, failure, repo, build):
         w = None
         try:
             import witness
-            if pid in ('C01', 'C02', 'C03', 'C04', 'C05', 'C06', 'C07', 'C08', 'C09', 'C12'):
+            if pid in ('C01', 'C02', 'C03', 'C04', 'C05', 'C06', 'C07', 'C08', 'C09', 'C12', 'C13', 'C15', 'C18'):
                 w = witness.search(pid, repo, budget_s=25.0)
         except Exception as e:
             w = None
